@@ -56,3 +56,7 @@ ENGINE['C19'] = 'symx+odex'
 CHECKS['C19'] = (_SYMX + ' / odex; argument snapshots compared on every path, second call with the same objects, flow-stub arguments and right-hand sides compared as terms',
                  'on every path of every configuration in the bound the graph, initial-condition containers, specification graphs and numeric array arguments are unchanged after the call; the same call repeated with the same objects succeeds, and ODE model functions hand identical (X0, args, right-hand side) to the integrator',
                  'floats as reals; the frame condition is largely independent of numeric values, so the solver share is small (DESIGN section 8)', 'DESIGN.md 6/C19')
+ENGINE['C14'] = 'symx+odex'
+CHECKS['C14'] = (_ODEX + ' on G and a relabelled, re-ordered copy: identity of the integrator inputs (degree-based) / equivariance of the vector field for all states (node-level), decided by z3; ' + 'symx runs of the deterministic-rule simulators with tables transported by the relabelling',
+                 'for every entry point and relabelling in the bound: degree-based wrappers hand identical (X0, right-hand side) to the integrator; node-level models satisfy f_G\'(Px) = P f_G(x) for all x and P X0 = X0\'; deterministic-rule simulators give identical per-node histories up to the relabelling on every path',
+                 'floats as reals; graphs P3, paw, S3 (irr5); 3 relabelings (all for n=3 in thorough); L5', 'DESIGN.md 6/C14')
